@@ -451,6 +451,15 @@ func bBEAppend(n int) bhandler {
 		h := x.heapGet(b.st, key, srt)
 		arr := x.sc.freshConst("bearr", "(Array Int Int)")
 		x.sc.assert(eq(beValue(arr, "0", n), v.S))
+		for i := 0; i < n; i++ {
+			x.sc.assert(fmt.Sprintf("(and (<= 0 (select %s %d)) (<= (select %s %d) 255))", arr, i, arr, i))
+		}
+		if c, ok := constOf(v.S); ok {
+			// constant value: the bytes are known
+			for i := 0; i < n; i++ {
+				x.sc.assert(eq(sel(arr, fmt.Sprint(i)), fmt.Sprint((c>>(uint(8*(n-1-i))))&0xff)))
+			}
+		}
 		b.st.heap[key] = x.name("h", srt, store(h, reg, arr))
 		return Val{T: b.resT.At(0).Type(), S: fmt.Sprintf("(mk_slice %s 0 %d %d)", reg, n, n)}, b.st
 	}
